@@ -43,14 +43,14 @@ def _sync_code_lines():
     return _SYNC_LINES
 
 
-def _line_preempts(rng, sc, p=0.5):
+def _line_preempts(rng, sc, p=0.7):
     """Location-keyed pre-emption points for the sync engine: source lines drawn uniformly over LINES, so a line that runs
     once per drain (a finally block, a lock release) is as likely a switch point as a line of a hot loop."""
     if rng.random() >= p:
         return
     lines = _sync_code_lines()
     pts = []
-    for _ in range(rng.randint(3, 10)):
+    for _ in range(rng.randint(6, 16)):
         ln = rng.choice(lines)
         # a short run of consecutive lines widens narrow windows (check ... release)
         for d in range(rng.choice((1, 1, 2, 3))):
@@ -345,7 +345,7 @@ register(
     "C04",
     families=[("async_multi", 4, gen_c04("async", "multi")), ("async_burst", 2, gen_c04("async", "burst")),
               ("async_inflight", 3, gen_c04("async", "inflight")),
-              ("sync_seq", 2, gen_c04("sync", "multi")), ("sync_threads", 3, gen_c04("sync", "threads")),
+              ("sync_seq", 2, gen_c04("sync", "multi")), ("sync_threads", 5, gen_c04("sync", "threads")),
               ("sync_burst", 2, gen_c04("sync", "burst"))],
     oracle=O.oracle_c04,
     stats=O.stats_c04,
@@ -806,7 +806,7 @@ register(
     stats=C12.stats_c12,
     level="fault_enumeration",
     chunk=10,
-    tiers={"quick": {"runs": 900}, "thorough": {"runs": 60000}},
+    tiers={"quick": {"runs": 3000}, "thorough": {"runs": 60000}},
     rule=("per sampled scenario of n events: for EVERY k <= n the run is cut after event k: get_snapshot(), the interpreter is abandoned "
           "(its tasks/threads die silently), a fresh machine is built from the same config, from_snapshot + start, and events k+1..n are "
           "replayed; the restored run must agree with the uninterrupted one after every continuation event on configuration, context, "
@@ -858,7 +858,7 @@ def gen_c14(engine, mode):
                                   p_slow_act=0.08, p_async_act=(0.1 if asyncish else 0.0), events=3,
                                   p_stop_act=(0.06 if mode == "inside" else 0.0)))
         out = mg.build()
-        if mode == "inside" and rng.random() < 0.4:
+        if mode == "inside" and rng.random() < 0.6:
             # stop() called by an action of the very transition that goes on to enter a top-level final state
             # (or by that final state's entry action): the status must stay `stopped`
             root = out["machine"]
@@ -926,9 +926,9 @@ def gen_c14(engine, mode):
 register(
     "C14",
     families=[("life_async_seq", 3, gen_c14("async", "seq")), ("life_async_race", 3, gen_c14("async", "race")),
-              ("life_async_inside", 2, gen_c14("async", "inside")),
+              ("life_async_inside", 3, gen_c14("async", "inside")),
               ("life_sync_seq", 3, gen_c14("sync", "seq")), ("life_sync_race", 2, gen_c14("sync", "race")),
-              ("life_sync_inside", 2, gen_c14("sync", "inside"))],
+              ("life_sync_inside", 3, gen_c14("sync", "inside"))],
     oracle=C14.oracle_c14,
     stats=C14.stats_c14,
     level="exploration",
